@@ -1385,6 +1385,99 @@ pub fn sweep_v5(thorough: bool) -> Vec<v5::Packet> {
             }
         }
     }
+    // every property ALONE with each of its SPECIAL values (zero, one, the maximum, the empty text / data — often
+    // the protocol's default, which a "don't send defaults" clean-up would drop), at every position, crossed with
+    // the reason codes that select a short form
+    {
+        let specials = |id: u8| -> Vec<Val> {
+            match kind_char(id) {
+                'b' | 'q' => vec![Val::Byte(0), Val::Byte(1)],
+                'h' => vec![Val::U16(0), Val::U16(1), Val::U16(65_535)],
+                'w' => vec![Val::U32(0), Val::U32(1), Val::U32(u32::MAX)],
+                's' => vec![Val::Str(String::new()), Val::Str("a".into())],
+                't' => vec![Val::Str("a".into())],
+                'y' => vec![Val::Bin(vec![]), Val::Bin(vec![0])],
+                _ => vec![Val::VarInt(0), Val::VarInt(1), Val::VarInt(268_435_455)],
+            }
+        };
+        let single = |id: u8, v: Val| -> PMap {
+            let mut m = PMap::default();
+            m.known.insert(id, v);
+            m
+        };
+        let pid = Pid::try_from(14).unwrap();
+        for id in v5text::PUBLISH_IDS {
+            for v in specials(id) {
+                let m = single(id, v);
+                for topic in ["", "t"] {
+                    out.push(Packet::Publish(Publish { dup: false, retain: false, qos_pid: QosPid::Level0, topic_name: TopicName::try_from(topic.to_string()).unwrap(), payload: Bytes::from(&b"p"[..]), properties: v5text::mk_publish_props(&m) }));
+                }
+            }
+        }
+        for id in v5text::CONNECT_IDS {
+            for v in specials(id) {
+                let m = single(id, v);
+                out.push(Packet::Connect(Connect { protocol: Protocol::V500, clean_start: false, keep_alive: 0, properties: v5text::mk_connect_props(&m), client_id: Arc::new(String::new()), last_will: None, username: None, password: None }));
+            }
+        }
+        for id in v5text::WILL_IDS {
+            for v in specials(id) {
+                let m = single(id, v);
+                out.push(Packet::Connect(Connect {
+                    protocol: Protocol::V500,
+                    clean_start: false,
+                    keep_alive: 0,
+                    properties: Default::default(),
+                    client_id: Arc::new(String::new()),
+                    last_will: Some(LastWill { qos: QoS::Level0, retain: false, topic_name: name(1), payload: Bytes::new(), properties: v5text::mk_will_props(&m) }),
+                    username: None,
+                    password: None,
+                }));
+            }
+        }
+        for id in v5text::CONNACK_IDS {
+            for v in specials(id) {
+                let m = single(id, v);
+                out.push(Packet::Connack(Connack { session_present: false, reason_code: ConnectReasonCode::Success, properties: v5text::mk_connack_props(&m) }));
+            }
+        }
+        for id in v5text::DISCONNECT_IDS {
+            for v in specials(id) {
+                let m = single(id, v);
+                for reason_code in [DisconnectReasonCode::NormalDisconnect, DisconnectReasonCode::ServerBusy] {
+                    out.push(Packet::Disconnect(Disconnect { reason_code, properties: v5text::mk_disconnect_props(&m) }));
+                }
+            }
+        }
+        for id in v5text::AUTH_IDS {
+            for v in specials(id) {
+                let m = single(id, v);
+                for reason_code in v5text::AUTH_RC {
+                    out.push(Packet::Auth(Auth { reason_code, properties: v5text::mk_auth_props(&m) }));
+                }
+            }
+        }
+        for v in specials(0x0b) {
+            let m = single(0x0b, v);
+            out.push(Packet::Subscribe(Subscribe { pid, properties: v5text::mk_subscribe_props(&m), topics: vec![(TopicFilter::try_from("a".to_string()).unwrap(), SubscriptionOptions::new(QoS::Level0))] }));
+        }
+        for rs in [None, Some(""), Some("a")] {
+            for users in [0usize, 1] {
+                let reason_string = rs.map(|r| Arc::new(r.to_string()));
+                let user_properties: Vec<UserProperty> = (0..users).map(|_| UserProperty { name: Arc::new(String::new()), value: Arc::new(String::new()) }).collect();
+                for first in [true, false] {
+                    out.push(Packet::Puback(Puback { pid, reason_code: if first { PubackReasonCode::Success } else { PubackReasonCode::NoMatchingSubscribers }, properties: PubackProperties { reason_string: reason_string.clone(), user_properties: user_properties.clone() } }));
+                    out.push(Packet::Pubrec(Pubrec { pid, reason_code: if first { PubrecReasonCode::Success } else { PubrecReasonCode::NoMatchingSubscribers }, properties: PubrecProperties { reason_string: reason_string.clone(), user_properties: user_properties.clone() } }));
+                    out.push(Packet::Pubrel(Pubrel { pid, reason_code: if first { PubrelReasonCode::Success } else { PubrelReasonCode::PacketIdentifierNotFound }, properties: PubrelProperties { reason_string: reason_string.clone(), user_properties: user_properties.clone() } }));
+                    out.push(Packet::Pubcomp(Pubcomp { pid, reason_code: if first { PubcompReasonCode::Success } else { PubcompReasonCode::PacketIdentifierNotFound }, properties: PubcompProperties { reason_string: reason_string.clone(), user_properties: user_properties.clone() } }));
+                    out.push(Packet::Suback(Suback { pid, properties: SubackProperties { reason_string: reason_string.clone(), user_properties: user_properties.clone() }, topics: if first { vec![] } else { vec![SubscribeReasonCode::GrantedQoS0] } }));
+                    out.push(Packet::Unsuback(Unsuback { pid, properties: UnsubackProperties { reason_string: reason_string.clone(), user_properties: user_properties.clone() }, topics: if first { vec![] } else { vec![UnsubscribeReasonCode::Success] } }));
+                    out.push(Packet::Disconnect(Disconnect { reason_code: if first { DisconnectReasonCode::NormalDisconnect } else { DisconnectReasonCode::ServerBusy }, properties: DisconnectProperties { reason_string: reason_string.clone(), user_properties: user_properties.clone(), ..Default::default() } }));
+                    out.push(Packet::Auth(Auth { reason_code: if first { AuthReasonCode::Success } else { AuthReasonCode::ReAuthentication }, properties: AuthProperties { reason_string: reason_string.clone(), user_properties: user_properties.clone(), ..Default::default() } }));
+                }
+            }
+        }
+    }
     // every PAIR of properties present alone (mode 5), at every property-carrying position; PUBLISH with an
     // empty and a non-empty topic (an empty topic + Topic Alias is the one legal use of the empty name)
     {
